@@ -3,6 +3,7 @@
 // For every narena in [lo,hi): m->narena = narena; mj_makeData; nstep x mj_step, each compared with the
 // same step on an ample-memory mjData started from the same integration state.
 #include <dlfcn.h>
+#include <fcntl.h>
 #include <setjmp.h>
 #include <signal.h>
 #include <stdint.h>
@@ -557,17 +558,30 @@ int main(int argc, char** argv) {
     for (int i = 0; i < nstep; i++) want += i ? ",ok" : "ok";
     long fe = s.fresh_every;
     s.fresh_every = 0;
-    for (;; top += 1024) {
-      if (top > hi) { fprintf(stderr, "no fault-free top found below %ld\n", hi); return 2; }
-      VgxOut o;
-      o.f = fopen("/dev/null", "w");
-      bool allok = true;
-      for (long x = top - 64; x < top && allok; x++) {
-        point(x, o, &s);
-        allok = o.viol.empty() && o.hist.size() == 1 && o.hist.begin()->first == want;
+    bool found = false;
+    for (; top <= hi; top += 1024) {
+      // in a child: a crash here must not take the driver down
+      fflush(stdout);
+      pid_t pid = fork();
+      if (pid == 0) {
+        int fd = open("/dev/null", O_WRONLY);
+        dup2(fd, 2);
+        VgxOut o;
+        o.f = fopen("/dev/null", "w");
+        bool allok = true;
+        for (long x = top - 64; x < top && allok; x++) {
+          point(x, o, &s);
+          allok = o.viol.empty() && o.hist.size() == 1 && o.hist.begin()->first == want;
+        }
+        _exit(allok ? 0 : 1);
       }
-      fclose(o.f);
-      if (allok) break;
+      int status = 0;
+      while (waitpid(pid, &status, 0) < 0 && errno == EINTR) {}
+      if (WIFEXITED(status) && WEXITSTATUS(status) == 0) { found = true; break; }
+    }
+    if (!found) {
+      top = hi;
+      printf("V 0 1 0 no fault-free arena size found|no 64 consecutive fault-free sizes up to maxuse_arena + 65536 = %ld\n", hi);
     }
     s.fresh_every = fe;
     g_ref.clear();
